@@ -52,6 +52,17 @@ def collect(h):
     if not re.search(r"if\s+codecVer\s*>=\s*codec_RDB_2\s*\{", body):
         raise h.Missing(f"{rel}: loadEventCUD: emptied fields are not read from codec_RDB_2 on")
 
+    # the original event name written by storeEventBuildError: the event's own name (for a decoded error
+    # event that is sys.Error / sys.Corrupted) or the name kept in the error record
+    body = h.func_body(rel, r"^func storeEventBuildError\(", "storeEventBuildError")
+    if re.search(r"WriteShortString\(buf,\s*ev\.name\.String\(\)\)", body):
+        orig = "false"
+    elif re.search(r"WriteShortString\(buf,\s*ev\.buildErr\.qName\.String\(\)\)", body):
+        orig = "true"
+    else:
+        raise h.Missing(f"{rel}: storeEventBuildError: original event name expression not recognised")
+    items.append(("c02_reencode_orig_name", "bool", orig, rel + " storeEventBuildError"))
+
     rel = "pkg/istructsmem/internal/utils/bytes.go"
     mx = h.go_int(h.find(rel, r"const\s+maxLen\s+uint16\s*=\s*(0x[0-9A-Fa-f]+|[0-9]+)", "WriteShortString maxLen").group(1))
     items.append(("c02_short_string_max", "N", str(mx), rel))
@@ -63,6 +74,12 @@ def collect(h):
     blk = r"const \(\s*\n\s*NullQNameID QNameID = 0 \+ iota\n(.*?)\n\s*QNameIDSysLast"
     for nm, go in (("c02_qid_error", "QNameIDForError"), ("c02_qid_corrupted", "QNameIDForCorruptedData")):
         items.append((nm, "N", str(1 + _iota_index(h, rel, blk, go, "well-known QNameID block")), rel))
+
+    sysp = h.find("pkg/appdef/consts.go", r'^\s*SysPackage\s*=\s*"(\w+)"\s*$', "SysPackage").group(1)
+    for nm, go in (("c02_name_error", "QNameForError"), ("c02_name_corrupted", "QNameForCorruptedData")):
+        ent = h.find(rel, r"^\s*" + go + r'\s*=\s*appdef\.NewQName\(appdef\.SysPackage,\s*"(\w+)"\)\s*$', go).group(1)
+        txt = (sysp + "." + ent).encode()
+        items.append((nm, "list N", "[" + "; ".join(f"{b}%N" for b in txt) + "]", rel + f" ({sysp}.{ent})"))
 
     rel = "pkg/istructsmem/internal/consts/qnames.go"
     blk = r"const \(\s*\n\s*SysView_Versions\s+uint16 = ([0-9]+) \+ iota[^\n]*\n(.*?)\n\s*\)"
